@@ -473,6 +473,8 @@ static void _expect(int fd, char *str)
         res = xread(fd, p, len);
         if (res < 0)
            err_exit(true, "lost connection with server");
+        if (res == 0)
+           err_exit(false, "EOF on read");
         p += res;
         *p = '\0';
         len -= res;
